@@ -51,7 +51,10 @@ def main():
                     rec["now"][c] = {"exit": rc, "wall_s": round(time.time() - t, 1),
                                      "violation": [l for l in o.splitlines() if l.startswith("VIOLATION")][:1]}
                 if not any(v["exit"] == 1 for v in rec["now"].values()):
-                    missed.append(name)
+                    if meta.get("neutralised_by") and applied == "HEAD":
+                        rec["note"] = "neutralised by " + meta["neutralised_by"]
+                    else:
+                        missed.append(name)
             out[name] = rec
             print(name, applied, {c: v["exit"] for c, v in rec["now"].items()}, flush=True)
     finally:
